@@ -3,6 +3,7 @@
 //   submission order, the consume function never runs in two places at once, execute()/
 //   signal_push_event() return non-zero exactly when the launch they needed was refused, and
 //   once a launch was accepted after the last push join() returns with everything consumed.
+#include "known.h"
 #include <babylon/concurrent/execution_queue.h>
 
 #include <stdarg.h>
@@ -27,12 +28,11 @@ namespace {
 // consumer running; a join() called in that window returns although that item was not consumed yet (it is
 // consumed as soon as the slower producer finishes its own execute()). While this flag is true the strict
 // "consumed when a concurrent join() returns" check skips exactly the items whose execute() overlapped another
-// thread's execute(); build with -DC16_KNOWN_JOIN_FINDING=0 to check strictly and reproduce the finding
+// thread's execute(); run with VF_ALLOW_KNOWN=c16join to check strictly and reproduce the finding
 // (witness: corpus/c16_execq/known_join_behind_inflight_push.replay.json).
-#ifndef C16_KNOWN_JOIN_FINDING
-#define C16_KNOWN_JOIN_FINDING 1
-#endif
-constexpr bool known_join_misses_item_behind_inflight_push = C16_KNOWN_JOIN_FINDING != 0;
+// The guard is lifted (strict check) when VF_ALLOW_KNOWN names the token "c16join" (see known.h).
+// (evaluated at use: a replay file sets the variable after static initialisation)
+bool known_join_misses_item_behind_inflight_push() { return !vf_allow_known("c16join"); }
 
 struct PerThread {
   bool pushing = false;     // inside execute() (a push may be in flight)
@@ -241,7 +241,7 @@ void checked_join(Queue& q, bool faultless, bool final_join) {
   std::vector<uint64_t> before;
   for (const Done& d : W->completed) {
     if (!dsched::ordered_after(d.stamp)) continue;
-    if (known_join_misses_item_behind_inflight_push && d.overlapped && !final_join) continue;
+    if (known_join_misses_item_behind_inflight_push() && d.overlapped && !final_join) continue;
     before.push_back(d.id);
   }
   t.sleeps_in_call = 0;
